@@ -869,6 +869,94 @@ fn search_call(seed: u64, budget: usize) -> Option<Value> {
 }
 
 // ---------------------------------------------------------------------------------------------
+// C05 (error envelope, DERIVE OUTPUT - outside the functions under contract: a witness finder for that part, nothing more):
+// an enum using the ReplyError derive encodes as {"error": "<interface>.<Variant>"} plus a `parameters` object holding the
+// variant's fields under their wire names exactly when it has fields; it decodes from either member order and round-trips.
+// (Not asserted: how a field-less variant's absent / null / {} parameters decode - the property text announces that defect.)
+#[derive(Debug, PartialEq, Clone, zlink_core::ReplyError)]
+#[zlink(interface = "a.b", crate = "zlink_core")]
+enum DErr {
+    Plain,
+    One { code: u32 },
+    Opt { a: Option<u32>, b: Option<String>, c: u32 },
+    Ren { #[zlink(rename = "theName")] s: String },
+    Many { p: u32, q: Option<bool>, r: String, t: Option<u32> },
+    AllOpt { a: Option<u32>, b: Option<String> },
+}
+/// the bytes zlink's own serializer puts on the wire for an error reply (through the public send_error), without the terminator
+fn zlink_to_slice<T: Serialize + std::fmt::Debug>(value: &T, out: &mut [u8]) -> Option<usize> {
+    let sock = ScriptedSocket::new(&[], &[]);
+    let script = sock.0.clone();
+    let mut conn = zlink_core::Connection::new(sock);
+    block_on(conn.send_error(value), 10).ok()?;
+    let log = script.borrow().log.clone();
+    let frame = log.first()?;
+    let n = frame.len().checked_sub(1)?;
+    out[..n].copy_from_slice(&frame[..n]);
+    Some(n)
+}
+fn derr_of(v: u8, x: u32, mask: u8) -> DErr {
+    let o = |bit: u8, y: u32| if mask & bit != 0 { Some(y) } else { None };
+    match v % 6 {
+        5 => DErr::AllOpt { a: o(1, x), b: if mask & 2 != 0 { Some(format!("o{x}")) } else { None } },
+        0 => DErr::Plain,
+        1 => DErr::One { code: x },
+        2 => DErr::Opt { a: o(1, x), b: if mask & 2 != 0 { Some(format!("s{x}")) } else { None }, c: x ^ 5 },
+        3 => DErr::Ren { s: format!("r{x}") },
+        _ => DErr::Many { p: x, q: if mask & 1 != 0 { Some(x % 2 == 0) } else { None }, r: format!("m{x}"), t: o(2, x + 1) },
+    }
+}
+fn run_err(v: u8, x: u32, mask: u8) -> Option<String> {
+    let e = derr_of(v, x, mask);
+    let (variant, fields): (&str, Vec<&str>) = match &e {
+        DErr::Plain => ("Plain", vec![]), DErr::One { .. } => ("One", vec!["code"]), DErr::Opt { .. } => ("Opt", vec!["a", "b", "c"]),
+        DErr::Ren { .. } => ("Ren", vec!["theName"]), DErr::Many { .. } => ("Many", vec!["p", "q", "r", "t"]), DErr::AllOpt { .. } => ("AllOpt", vec!["a", "b"]),
+    };
+    // through the text (what goes on the wire), not through serde_json's Value serializer: a wrong size hint shows only there
+    let wire_text = match serde_json::to_string(&e) { Ok(t) => t, Err(x) => return Some(format!("{e:?}: encoding failed: {x}")) };
+    let j: Value = match serde_json::from_str(&wire_text) { Ok(j) => j, Err(x) => return Some(format!("{e:?} encodes as {wire_text}, which is not a JSON document: {x}")) };
+    let mut zbuf = vec![0u8; 4096];
+    match zlink_to_slice(&e, &mut zbuf) { Some(n) if &zbuf[..n] == wire_text.as_bytes() => {}, other => return Some(format!("{e:?}: zlink's own serializer writes {:?}, serde_json {wire_text}", other.map(|n| String::from_utf8_lossy(&zbuf[..n]).to_string()))) }
+    let obj = match j.as_object() { Some(o) => o, None => return Some(format!("{e:?} encodes as {j}, not an object")) };
+    if obj.get("error").and_then(|n| n.as_str()) != Some(&format!("a.b.{variant}")) { return Some(format!("{e:?} encodes as {j}: `error` is not \"a.b.{variant}\"")); }
+    if obj.keys().any(|k| k != "error" && k != "parameters") { return Some(format!("{e:?} encodes as {j}: members besides `error` and `parameters`")); }
+    match (fields.is_empty(), obj.get("parameters")) {
+        (true, None) => {}
+        (true, Some(p)) => return Some(format!("{e:?} has no fields but encodes `parameters`: {p}")),
+        (false, None) => return Some(format!("{e:?} has fields but encodes no `parameters`: {j}")),
+        (false, Some(p)) => {
+            let po = match p.as_object() { Some(o) => o, None => return Some(format!("{e:?}: `parameters` is not an object: {p}")) };
+            if po.keys().any(|k| !fields.contains(&k.as_str())) { return Some(format!("{e:?}: `parameters` holds a member that is no field of the variant: {p}")); }
+            // a field that is not an Option (or is Some) must be there under its wire name; a None may be null or left out
+            let must: Vec<&str> = match &e {
+                DErr::One { .. } => vec!["code"], DErr::Ren { .. } => vec!["theName"],
+                DErr::Opt { a, b, .. } => [a.map(|_| "a"), b.as_ref().map(|_| "b"), Some("c")].into_iter().flatten().collect(),
+                DErr::Many { q, t, .. } => [Some("p"), q.map(|_| "q"), Some("r"), t.map(|_| "t")].into_iter().flatten().collect(),
+                DErr::AllOpt { a, b } => [a.map(|_| "a"), b.as_ref().map(|_| "b")].into_iter().flatten().collect(),
+                DErr::Plain => vec![],
+            };
+            for f in must { if po.get(f).map_or(true, |v| v.is_null()) { return Some(format!("{e:?}: field `{f}` is missing from `parameters`: {j}")); } }
+        }
+    }
+    // round trip, in both member orders
+    let text = j.to_string();
+    match serde_json::from_str::<DErr>(&text) { Ok(b) if b == e => {}, other => return Some(format!("{e:?} -> {text} -> {other:?}: does not round-trip")) }
+    if let Some(p) = obj.get("parameters") {
+        let swapped = format!(r#"{{"parameters":{p},"error":"a.b.{variant}"}}"#);
+        match serde_json::from_str::<DErr>(&swapped) { Ok(b) if b == e => {}, other => return Some(format!("{e:?}: decoding {swapped} (parameters first) gives {other:?}")) }
+    }
+    None
+}
+fn search_err(seed: u64, budget: usize) -> Option<Value> {
+    let mut rng = Rng(seed.wrapping_mul(0x9E3779B97F4A7C15) | 1);
+    for _ in 0..budget {
+        let (v, x, mask) = (rng.below(6) as u8, rng.below(100000) as u32, rng.below(4) as u8);
+        if let Some(why) = run_err(v, x, mask) { return Some(json!({"kind":"err","v":v,"x":x,"mask":mask,"why":why})); }
+    }
+    None
+}
+
+// ---------------------------------------------------------------------------------------------
 // C18: fairness.  Every connection has all its calls available from the start (one pipelined burst each);
 // call `a` = 100 * connection + sequence number.  Expected: no connection is served twice in a row while another
 // connection still has an unserved call (they have all been waiting the whole time).
@@ -1164,6 +1252,7 @@ fn main() {
             "fair" => search_fair(seed, budget / 40),
             "faults" => search_faults(seed, budget / 10),
             "call" => search_call(seed, budget / 4),
+            "err" => search_err(seed, budget / 4),
             _ => panic!("unknown kind"),
         };
         match found {
@@ -1202,6 +1291,12 @@ fn main() {
                 std::process::exit(1);
             }
             println!("REPLAY: passes on the real code");
+        }
+        Some("err") => {
+            match run_err(w["v"].as_u64().unwrap() as u8, w["x"].as_u64().unwrap() as u32, w["mask"].as_u64().unwrap() as u8) {
+                Some(why) => { println!("{why}\nREPLAY: FAILS on the real code"); std::process::exit(1); }
+                None => println!("REPLAY: passes on the real code"),
+            }
         }
         Some("call") => {
             let flags: Vec<Option<bool>> = w["flags"].as_array().unwrap().iter().map(|x| x.as_bool()).collect();
